@@ -491,7 +491,19 @@ class World:
                 d[x] = v
                 xv = self.var_tt(x)
                 t &= xv if v else (~xv & self.F)
-        self.hold(self.api.cube(d), t, keep)
+        arg = d
+        if d and all(d.values()):
+            # a positive cube may be given as any iterable of names
+            k = (mask + vals) % 5
+            if k == 1:
+                arg = list(d)
+            elif k == 2:
+                arg = set(d)
+            elif k == 3:
+                arg = (x for x in list(d))
+            elif k == 4:
+                arg = tuple(d)
+        self.hold(self.api.cube(arg), t, keep)
 
     def op_find_or_add(self, k, i, j, keep=1):
         """Node `ite(x, hi, lo)` where hi, lo are projected so that they
